@@ -59,9 +59,20 @@ void free(void *);
 """
 
 
+_IN_GC = [0]
+
+
+def _gc_callback(phase, info):
+    # a destructor that runs inside a collection may see the objects of the
+    # same garbage in any state (finalizers run in arbitrary order)
+    _IN_GC[0] += 1 if phase == 'start' else -1
+
+
 def child_setup(setup, wd):
     from cffi import FFI
     import _cffi_backend as B
+    if _gc_callback not in gc.callbacks:
+        gc.callbacks.append(_gc_callback)
     ffi = FFI()
     ffi.cdef(CDEF)
     st = {'ffi': ffi, 'B': B, 'cf': B.FFI(), 'lib': ffi.dlopen(None), 'cur': None}
@@ -330,8 +341,9 @@ class H(object):
                       'object is at %#x' % (o.oid, addr, o.orig_addr))
                 return
             # the original object must still be usable inside the destructor
+            # (outside a collection: there the order of finalizers is free)
             b = o.base
-            if b is not None and h.mem_valid(b):
+            if b is not None and not _IN_GC[0] and h.mem_valid(b):
                 got = h.read_mem(b, arg)
                 h.rep.stat('destructor_reads_memory')
                 if got != b.root.stamp:
@@ -939,21 +951,19 @@ class H(object):
                 if not u.released and not self.alive(u):
                     u.gone = True
         unlocked_must = all(u.released or u.gone for u in users)
-        x = s.ref()
-        if x is None:
+        if s.ref() is None:
             if locked_must:
                 self.bad('from_buffer-source-freed', 'the source (%s) was freed although a '
                          'from_buffer cdata that was not released is alive, %s' % (s.flavour, when))
             s.done = True
             return
-        target = s.lockobj if s.lockobj is not None else x
+        if collected and s.strong is None and unlocked_must:
+            self.bad('from_buffer-source-leaked', 'source (%s) of from_buffer still alive '
+                     'after every cdata made from it was released or collected' % s.flavour)
+            s.done = True
+            return
         if locked_must or unlocked_must:
-            try:
-                target.append(1)
-                worked = True
-                del target[-1]
-            except BufferError:
-                worked = False
+            worked = self.probe_lock(s)
             if worked and locked_must:
                 self.bad('export-lock-released-early', 'resizing the from_buffer source (%s) %s: '
                          'worked' % (s.flavour, when))
@@ -970,12 +980,23 @@ class H(object):
             elif rel > hi:
                 self.bad('export-released-twice', 'counting exporter %s: %d buffer releases, '
                          'expected at most %d' % (when, rel, hi))
-        del x, target
-        if collected and s.strong is None and unlocked_must:
-            if s.ref() is not None:
-                self.bad('from_buffer-source-leaked', 'source (%s) of from_buffer still alive '
-                         'after every cdata made from it was released or collected' % s.flavour)
-            s.done = True
+
+    def probe_lock(self, s):
+        """True if the source is not export-locked"""
+        x = s.ref()
+        try:
+            if s.flavour.startswith('mv'):
+                # a memoryview cannot be released while a consumer holds a buffer
+                # obtained from it; when it can, it is unusable afterwards
+                x.release()
+                s.done = True
+            else:
+                target = s.lockobj if s.lockobj is not None else x
+                target.append(1)
+                del target[-1]
+            return True
+        except BufferError:
+            return False
 
     # ---- checks after drops and collections ----------------------------
     def after_drop(self):
